@@ -21,10 +21,10 @@ import (
 )
 
 var (
-	sandbox string // <sandbox>/parent/root is the served root
-	root    string
-	secrets []string          // markers that must never appear in a response
-	inRoot  map[string]string // relative path below root -> content
+	sandbox   string // <sandbox>/parent/root is the served root
+	root      string
+	secrets   []string          // markers that must never appear in a response
+	inRoot    map[string]string // relative path below root -> content
 	secretAbs string
 )
 
@@ -41,9 +41,13 @@ func TestMain(m *testing.M) {
 		os.Exit(2)
 	}
 	build()
+	buildRelative()
 	code := m.Run()
 	ev.Dump()
 	_ = os.RemoveAll(sandbox)
+	for _, d := range decoys {
+		_ = os.RemoveAll(d)
+	}
 	os.Exit(code)
 }
 
@@ -67,21 +71,63 @@ func build() {
 	write(filepath.Join(parent, "rootx.css"), m4) // shares the root's name as a prefix
 	inRoot = map[string]string{}
 	for _, f := range []string{"a.css", "b.js", "index.html", "page.html", "my file.css", "dots..css", "noext", "sub/c.css", "sub/index.html", "sub/deep/d.js", "sub/deep/e.txt", "x.css.bak", "up..js",
-		"lib.js/index.html", "lib.js/inner.css", "style.css/readme.txt", "sub/chart.js/index.html"} { // directories named like files
+		"lib.js/index.html", "lib.js/inner.css", "style.css/readme.txt", "sub/chart.js/index.html", // directories named like files
+		"accesscss", "passwdjs", "style.scss", "worker.mjs", "sub/config.cjs", "x.js.njs", "page.xhtml", "notes.md"} { // names that only END in the letters of an extension
 		inRoot[f] = "ROOTFILE<" + f + ">" + tag
 		write(filepath.Join(root, filepath.FromSlash(f)), inRoot[f])
 	}
 }
 
 type setup struct {
-	kind    string // StaticDir, StaticFS, StaticFiles, StaticFile
-	prefix  string
-	exts    string
-	encoded bool
+	kind     string // StaticDir, StaticFS, StaticFiles, StaticFile
+	prefix   string
+	exts     string
+	encoded  bool
+	relative bool // the root is given relative to the working directory ("../../sandbox/.../root")
 }
 
+// relRoot is the root relative to the working directory; decoys with secret markers sit where a sloppy resolution of
+// that relative path would end up (leading "../" dropped, or only its last element kept).
+var relRoot string
+
+func buildRelative() {
+	wd, err := os.Getwd()
+	if err != nil {
+		return
+	}
+	rel, err := filepath.Rel(wd, root)
+	if err != nil || !strings.HasPrefix(rel, "..") {
+		return
+	}
+	relRoot = rel
+	stripped := rel
+	for strings.HasPrefix(stripped, "../") {
+		stripped = stripped[3:]
+	}
+	for _, decoy := range []string{filepath.Join(wd, stripped), filepath.Join(wd, filepath.Base(root)), filepath.Join(wd, strings.TrimLeft(rel, "./"))} {
+		if strings.HasPrefix(decoy, root) {
+			continue
+		}
+		// remember the top-most directory this creates below the working directory, for removal
+		relDecoy, _ := filepath.Rel(wd, decoy)
+		top := filepath.Join(wd, strings.Split(filepath.ToSlash(relDecoy), "/")[0])
+		if _, err := os.Stat(top); err == nil {
+			continue // something of that name is already there: leave it alone
+		}
+		for f := range inRoot {
+			if strings.Contains(f, "/") {
+				continue
+			}
+			write(filepath.Join(decoy, f), secrets[1]+" decoy "+f)
+		}
+		decoys = append(decoys, top)
+	}
+}
+
+var decoys []string
+
 func (s setup) String() string {
-	return fmt.Sprintf("%s(prefix=%q exts=%q) UseEncodedPath=%v", s.kind, s.prefix, s.exts, s.encoded)
+	return fmt.Sprintf("%s(prefix=%q exts=%q relativeRoot=%v) UseEncodedPath=%v", s.kind, s.prefix, s.exts, s.relative, s.encoded)
 }
 
 func (s setup) router() *rux.Router {
@@ -90,15 +136,19 @@ func (s setup) router() *rux.Router {
 		opts = append(opts, rux.UseEncodedPath)
 	}
 	r := rux.New(opts...)
+	dir := root
+	if s.relative && relRoot != "" {
+		dir = relRoot
+	}
 	switch s.kind {
 	case "StaticDir":
-		r.StaticDir(s.prefix, root)
+		r.StaticDir(s.prefix, dir)
 	case "StaticFS":
-		r.StaticFS(s.prefix, http.Dir(root))
+		r.StaticFS(s.prefix, http.Dir(dir))
 	case "StaticFiles":
-		r.StaticFiles(s.prefix, root, s.exts)
+		r.StaticFiles(s.prefix, dir, s.exts)
 	case "StaticFile":
-		r.StaticFile(s.prefix, filepath.Join(root, "a.css"))
+		r.StaticFile(s.prefix, dir+"/a.css")
 	}
 	return r
 }
@@ -182,17 +232,18 @@ func check(s setup, u *url.URL, rec *httptest.ResponseRecorder) string {
 
 var segGen = rapid.OneOf(
 	rapid.SampledFrom([]string{"..", "..", ".", "", "%2e%2e", "%2E%2E", "%2f", "%5c", "\\", "..\\", "\x00", "...", "a.css", "b.js", "sub", "deep", "c.css", "d.js",
-		"index.html", "my file.css", "my%20file.css", "dots..css", "a.css.", "a.css/", "lib.js", "lib.js/", "style.css", "chart.js/", "inner.css", "secret.txt", "sibling", "leak.js", "root", "parent", "rootx.css", "noext", "e.txt", "x.css.bak", "up..js", "..css", "..%2f..%2fsecret.txt%00.css"}),
+		"index.html", "my file.css", "my%20file.css", "dots..css", "a.css.", "a.css/", "lib.js", "lib.js/", "style.css", "chart.js/", "inner.css", "accesscss", "passwdjs", "style.scss", "worker.mjs", "config.cjs", "x.js.njs", "page.xhtml", "notes.md", "secret.txt", "sibling", "leak.js", "root", "parent", "rootx.css", "noext", "e.txt", "x.css.bak", "up..js", "..css", "..%2f..%2fsecret.txt%00.css"}),
 	rapid.StringMatching(`[a-c./\\%]{1,4}`),
 )
 
 func prop(t *rapid.T) {
 	ev.Case()
 	s := setup{
-		kind:    rapid.SampledFrom([]string{"StaticDir", "StaticFS", "StaticFiles", "StaticFiles", "StaticFile"}).Draw(t, "kind"),
-		prefix:  rapid.SampledFrom([]string{"/assets", "/s", "/a/b", "/static.v1"}).Draw(t, "prefix"),
-		exts:    rapid.SampledFrom([]string{"css|js", "html", "css", "js|html|txt"}).Draw(t, "exts"),
-		encoded: rapid.Bool().Draw(t, "useEncodedPath"),
+		kind:     rapid.SampledFrom([]string{"StaticDir", "StaticFS", "StaticFiles", "StaticFiles", "StaticFile"}).Draw(t, "kind"),
+		prefix:   rapid.SampledFrom([]string{"/assets", "/s", "/a/b", "/static.v1"}).Draw(t, "prefix"),
+		exts:     rapid.SampledFrom([]string{"css|js", "html", "css", "js|html|txt"}).Draw(t, "exts"),
+		encoded:  rapid.Bool().Draw(t, "useEncodedPath"),
+		relative: rapid.IntRange(0, 2).Draw(t, "relativeRoot") == 0,
 	}
 	if s.kind == "StaticFile" {
 		s.prefix += "/one.css"
